@@ -269,6 +269,7 @@ def util_macros(cfg, table, log):
 FILE_DEFAULT_PROPS = {
     'entity': ['C14'], 'error': ['C14'], 'version': ['C08', 'C09'], 'slot': ['C01', 'C03'], 'index': ['C03'],
     'storage': ['C01', 'C02', 'C03'], 'traits': ['C01'], 'components': ['C02'], 'slices': ['C06'], 'view': ['C02'],
+    'gworld': ['C01', 'C03', 'C14'],
     'data': ['C15'], 'pworld': ['C15'], 'pattr': ['C15'], 'pcfg': ['C15'], 'query': ['C05'], 'iter': ['C06'],
 }
 
@@ -559,46 +560,18 @@ def build_macros_unit(cfg, n, outdir):
 
 # ---------------------------------------------------------------- template unit (C06, C07, C09): R-tmpl
 
-TMPL_DELEGATION_CHECKS = [
-    # (file, regex that must match the generator / trait text): the hand-written schema mirrors exactly these delegations
-    ('macros/src/generate/world.rs', r'pub\s+struct\s+#Archetype\s*\{\s*#\[doc\(hidden\)\]\s*pub\s+data:\s*#StorageN<#Archetype,\s*#\(#Component\),\*>,\s*\}'),
-    ('macros/src/generate/world.rs', r'fn\s+len\(&self\)\s*->\s*usize\s*\{\s*self\.data\.len\(\)\s*\}'),
-    ('macros/src/generate/world.rs', r'fn\s+version\(&self\)\s*->\s*ArchetypeVersion\s*\{\s*self\.data\.version\(\)\s*\}'),
-    ('macros/src/generate/world.rs', r'fn\s+entities\(&self\)\s*->\s*&\[Entity<#Archetype>\]\s*\{\s*self\.data\.get_slice_entities\(\)\s*\}'),
-    ('macros/src/generate/world.rs', r'fn\s+get_all_slices_mut\(&mut\s+self\)\s*->\s*#ArchetypeSlices\s*\{\s*self\.data\.get_all_slices_mut\(\)\s*\}'),
-    ('macros/src/generate/world.rs', r'impl\s+ArchetypeCanResolve<Entity<#Archetype>>\s+for\s+#Archetype\s*\{(?:(?!\bimpl\b).)*?fn\s+resolve_destroy\(&mut\s+self,\s*entity:\s*Entity<#Archetype>\)[^{]*\{\s*self\.data\.destroy\(entity\)\s*\}'),
-    ('macros/src/generate/world.rs', r'pub\s+struct\s+#ArchetypeSlices<\'a>\s*\{\s*pub\s+entity:\s*&\'a\s*\[Entity<#Archetype>\],\s*#\(\s*pub\s+#component:\s*&\'a\s+mut\s*\[#Component\],\s*\)\*\s*\}'),
-    ('macros/src/generate/world.rs', r'fn\s+new\(\s*entity:\s*&\'a\s*\[Entity<#Archetype>\],\s*#\(#component:\s*&\'a\s+mut\s*\[#Component\]\),\*\s*\)\s*->\s*Self\s*\{\s*Self\s*\{\s*entity,\s*#\(#component\),\*\s*\}\s*\}'),
-    ('macros/src/generate/world.rs', r'fn\s+raw_new\(#\(#component:\s*#Component,\)\*\)\s*->\s*Self\s*\{\s*Self\s*\{\s*#\(#component,\)\*\s*\}\s*\}'),
-    ('src/traits.rs', r'fn\s+destroy<K:\s*EntityKey>\(&mut\s+self,\s*entity:\s*K\)\s*->\s*Option<Self::Components>\s*where\s*Self:\s*ArchetypeCanResolve<K>,?\s*\{\s*<Self\s+as\s+ArchetypeCanResolve<K>>::resolve_destroy\(self,\s*entity\)\s*\}'),
-]
-
-
-def check_delegations(log):
-    cache = {}
-    for rel, rx in TMPL_DELEGATION_CHECKS:
-        if rel not in cache:
-            t = read_repo(rel)
-            t = re.sub(r'//[^\n]*', '', t)          # comments
-            t = re.sub(r'#\[inline(\(always\))?\]', '', t)
-            cache[rel] = t
-        if not re.search(rx, cache[rel], re.S):
-            raise ExtractError('R-tmpl: the schema model is out of date: %s no longer contains the delegation matched by /%s/' % (rel, rx[:90]))
-        log.rule('R-tmpl-eq', rel)
-
-
-TMPL_ARCHS = [{'type': 'ArchATag', 'field': 'arch_a', 'suffix': 'a'}, {'type': 'ArchBTag', 'field': 'arch_b', 'suffix': 'b'}]
+TMPL_ARCHS = [{'type': 'ArchATag', 'name': 'ArchA', 'field': 'arch_a', 'suffix': 'a'}, {'type': 'ArchBTag', 'name': 'ArchB', 'field': 'arch_b', 'suffix': 'b'}]
 # the schema query:  |entity: &Entity<_>, direct: &EntityDirect<_>, x: &mut CompX|
 TMPL_PARAMS = [('EntityWild', None, False), ('EntityDirectWild', None, False), ('Component', 'comp_x', True)]
 
 
 def build_templates_unit(cfg, n, outdir):
+    """the query templates of macros/src/generate/query.rs instantiated for the schema, over the code ecs_world! generates for it"""
     from . import tmpl
     log = Log()
-    check_delegations(log)
     table = load_panic_table()
     sc = load_sidecar('templates.vsp', cfg)
-    schema = add_markers(apply_sidecar_cfg(open(os.path.join(CONTRACTS, 'tmpl_schema.rs')).read(), cfg), 'C:tmpl_schema.rs')
+    ghost = add_markers(apply_sidecar_cfg(open(os.path.join(CONTRACTS, 'tmpl_ghost.rs')).read(), cfg), 'C:tmpl_ghost.rs')
     iter_rs = transform_plain('src/iter.rs', 'iter', cfg, sc, table, log)
     raw = add_markers(read_repo('macros/src/generate/query.rs'), 'query')
     harness = []
@@ -608,20 +581,124 @@ def build_templates_unit(cfg, n, outdir):
     blocks = tmpl.template_blocks(raw, 'generate_query_iter', 'iter_bind_mut', TMPL_ARCHS, TMPL_PARAMS, 'decide_iter', log)
     harness.append('fn tmpl_iter(world: &mut WorldS, tr_a: &mut Ghost<Seq<Visit>>, tr_b: &mut Ghost<Seq<Visit>>)\n{\n'
                    + '\n'.join(blocks) + '\n}\n')
+    # ecs_find! (FetchMode::Mut) with a dynamically typed key, shared and direct
+    from . import worldgen
+    for fname, kty in (('tmpl_find_any', 'EntityAny'), ('tmpl_find_direct_any', 'EntityDirectAny')):
+        body = tmpl.find_template(raw, worldgen.SCHEMA.name, TMPL_ARCHS, TMPL_PARAMS, 'decide_find', 'key', log)
+        body = worldgen.rule_optmap_all(body, log)
+        harness.append('fn %s(world: &mut WorldS, key: %s) -> Option<u8>\n{\n' % (fname, kty) + body + '\n}\n')
     htext = '\n'.join(harness)
+    from .extract import rule_panic
+    htext = rule_panic(htext, 'macros/src/generate/query.rs', table, log)
     fspec = sc.files.get('macros/src/generate/query.rs') or sidecar.FileSpec('macros/src/generate/query.rs')
     htext, _ = apply_contracts(htext, fspec, log, 'macros/src/generate/query.rs', None)
-    tail = ('// ======== src/iter.rs\n' + iter_rs + '\n// ======== schema (hand-written model of generated code, A-gen-arch)\n' + schema +
+    tail = ('// ======== src/iter.rs\n' + iter_rs + '\n// ======== ghost trace record of the template harnesses\n' + ghost +
             '\n// ======== instantiated templates of macros/src/generate/query.rs (R-tmpl, R-iife)\n' + htext)
-    gen = build_storage_unit(cfg, 2, outdir, tail_text=tail, unit='templates')
+    gen = build_world_unit(cfg, outdir, extra_tail=tail, unit='templates')
     for k, v in log.rules.items():
         gen.log.rules[k] = gen.log.rules.get(k, 0) + v
     gen.log.undecided.update(log.undecided)
-    gen.sources += ['src/iter.rs', 'macros/src/generate/query.rs', 'macros/src/generate/world.rs (delegation text-equality only)']
+    gen.sources += ['src/iter.rs', 'macros/src/generate/query.rs']
     # props of the harness functions
     for f in gen.fns:
         s = fspec.fns.get(f['key'])
         if s:
             f['props'] = list(s.props)
             f['contract'] = True
+    return gen
+
+
+# ---------------------------------------------------------------- generated world unit (R-world, R-quote)
+
+WORLD_SCHEMA_RS = 'world_schema.rs'
+
+
+def world_sidecars(cfg, q):
+    """instantiate the template-notation sidecars with the locals the generator functions computed for the schema"""
+    from . import quoteinst, worldgen
+    sc = sidecar.Sidecar()
+    sidecar.parse('worldgen_traits.vsp', apply_sidecar_cfg(open(os.path.join(CONTRACTS, 'worldgen_traits.vsp')).read(), cfg), sc)
+    nocomment = lambda t: '\n'.join('@@#' if l.startswith('@@#') else l for l in t.split('\n'))
+    raw = nocomment(apply_sidecar_cfg(open(os.path.join(CONTRACTS, 'worldgen_arch.vsp')).read(), cfg))
+    envs = q.envs.get('section_archetype', [])
+    if len(envs) != len(worldgen.SCHEMA.archetypes):
+        raise ExtractError('R-quote: section_archetype evaluated %d times for %d archetypes' % (len(envs), len(worldgen.SCHEMA.archetypes)))
+    arch_envs = []
+    for env in envs:
+        e = {k: v for k, v in env.items() if isinstance(v, (str, int, list)) and not isinstance(v, bool)}
+        a = e['Archetype']
+        e['Tag'] = worldgen.tag_of(a)
+        e['I'] = list(range(len(e['Component'])))
+        # per component: "all OTHER members of two components structs a, b agree" (a zip cannot express "the others")
+        e['rest_same'] = [' && '.join(['true'] + ['a.%s == b.%s' % (c, c) for j, c in enumerate(e['component']) if j != i]) for i in e['I']]
+        e['St'] = '%s<%s, %s>' % (e['StorageN'], e['Tag'], ','.join(e['Component']))
+        e['StE'] = '%s::<%s, %s>' % (e['StorageN'], e['Tag'], ','.join(e['Component']))
+        arch_envs.append(e)
+        sidecar.parse('worldgen_arch.vsp+%s' % a, quoteinst.instantiate(raw, e), sc)
+    wpath = os.path.join(CONTRACTS, 'worldgen_world.vsp')
+    if os.path.exists(wpath):
+        wenvs = q.envs.get('generate_world', [])
+        if len(wenvs) != 1:
+            raise ExtractError('R-quote: generate_world evaluated %d times' % len(wenvs))
+        e = {k: v for k, v in wenvs[0].items() if isinstance(v, (str, int, list)) and not isinstance(v, bool)}
+        e['Tag'] = [worldgen.tag_of(a) for a in e['Archetype']]
+        e['St'] = [ae['St'] for ae in arch_envs]
+        e['StE'] = [ae['StE'] for ae in arch_envs]
+        e['J'] = list(range(len(e['Archetype'])))
+        e['others_same'] = ['(' + ' && '.join(['true'] + ['post.%s == pre.%s' % (f, f) for j, f in enumerate(e['archetype']) if j != i]) + ')'
+                            for i in e['J']]
+        e['data_cs'] = [', '.join('data.c%d()' % k for k in ae['I']) for ae in arch_envs]
+        for k in ('Archetype', 'archetype', 'Tag', 'St', 'StE', 'J', 'ArchetypeComponents', 'ArchetypeDirect'):
+            e['All' + k] = list(e[k])
+        sidecar.parse('worldgen_world.vsp', quoteinst.instantiate(nocomment(apply_sidecar_cfg(open(wpath).read(), cfg)), e), sc)
+    return sc, arch_envs
+
+
+def build_world_job(cfg, n, outdir):
+    return build_world_unit(cfg, outdir)
+
+
+def build_world_unit(cfg, outdir, extra_tail=None, unit='world'):
+    """storage (N = 2) + the traits of src/traits.rs + the code ecs_world! generates for the schema (gv/worldgen.py)"""
+    from . import quoteinst, worldgen
+    log = Log()
+    table = load_panic_table()
+    raw = add_markers(read_repo('macros/src/generate/world.rs'), 'gworld')
+    q = quoteinst.Quoter(raw, cfg, log, 'macros/src/generate/world.rs')
+    if 'section_event_iter' not in q.fns:
+        raise ExtractError('R-world: section_event_iter not found')
+    q.drop_fns['section_event_iter'] = 'EcsEventIterator (std::slice::Iter adapter; returns impl Iterator) is not extracted'
+    gen_text = q.eval_fn('generate_world', [worldgen.SCHEMA, 'RAW'])
+    sc, arch_envs = world_sidecars(cfg, q)
+    # documented panics of the generated code: their justification is written in template notation too
+    wenv = {k: v for k, v in q.envs['generate_world'][0].items() if isinstance(v, (str, int, list)) and not isinstance(v, bool)}
+    wenv['Tag'] = [worldgen.tag_of(a) for a in wenv['Archetype']]
+    for e in table.entries:
+        if e['file'] == 'macros/src/generate/world.rs' and e.get('allowed_when') and '#' in e['allowed_when']:
+            e['allowed_when'] = quoteinst.instantiate(e['allowed_when'], wenv)
+    gen_text = worldgen.adapt_generated(gen_text, log, read_repo)
+    gen_text = common_rules(gen_text, cfg, 'macros/src/generate/world.rs', table, log)
+    fs_gen = sc.files.get('gen:world') or sidecar.FileSpec('gen:world')
+    gen_text, _ = apply_contracts(gen_text, fs_gen, log, 'macros/src/generate/world.rs', None)
+    tr = worldgen.traits_text(read_repo, cfg, log, common_rules, table)
+    fs_tr = sc.files.get('traits:world') or sidecar.FileSpec('traits:world')
+    tr, _ = apply_contracts(tr, fs_tr, log, 'src/traits.rs', None)
+    schema = add_markers(apply_sidecar_cfg(open(os.path.join(CONTRACTS, WORLD_SCHEMA_RS)).read(), cfg), 'C:' + WORLD_SCHEMA_RS)
+    tail = ('// ======== src/traits.rs (R-split)\n' + tr + '\n// ======== schema component types (opaque)\n' + schema +
+            '\n// ======== generated by ecs_world! for the schema (R-quote, R-world)\n' + gen_text + (('\n' + extra_tail) if extra_tail else ''))
+    gen = build_storage_unit(cfg, 2, outdir, tail_text=tail, unit=unit)
+    for k, v in log.rules.items():
+        gen.log.rules[k] = gen.log.rules.get(k, 0) + v
+    gen.log.notes.extend(log.notes)
+    gen.log.undecided.update(log.undecided)
+    gen.sources += ['macros/src/generate/world.rs']
+    specs = {}
+    for fs in (fs_gen, fs_tr):
+        specs.update(fs.fns)
+    for f in gen.fns:
+        s = specs.get(f['key'])
+        if s:
+            f['props'] = list(s.props)
+            f['contract'] = True
+    gen.panic_hits.update(table.hits)
     return gen
